@@ -33,20 +33,29 @@ LEAN_MODULES = {
     "C04": ["TFV.Properties.Rng"],
     "C05": ["TFV.Properties.EA"],
     "C06": ["TFV.Properties.BinOps", "TFV.Properties.Runs"],
-    "C07": ["TFV.Properties.DE", "TFV.Properties.Runs"],
+    "C07": ["TFV.Properties.DE", "TFV.Properties.Runs", "TFV.Properties.Src.BoundsControl"],
     "C08": ["TFV.Properties.Tree", "TFV.Properties.TreeCR", "TFV.Properties.Runs"],
-    "C09": ["TFV.Properties.Tree", "TFV.Properties.TreeCR"],
+    "C09": ["TFV.Properties.Tree", "TFV.Properties.TreeCR", "TFV.Properties.Src.TreeIdx"],
     "C10": ["TFV.Properties.Gray"],
-    "C11": ["TFV.Properties.Select"],
+    "C11": ["TFV.Properties.Select", "TFV.Properties.Src.Bsearch"],
     "C12": ["TFV.Properties.Net"],
     "C13": ["TFV.Properties.Net", "TFV.Properties.Gray"],
     "C14": ["TFV.Properties.SelfConf"],
     "C15": ["TFV.Properties.Adapt"],
-    "C16": ["TFV.Properties.Split"],
+    "C16": ["TFV.Properties.Split", "TFV.Properties.Src.GetNJobs"],
     "C17": ["TFV.Properties.EA", "TFV.Properties.Heap"],
     "C18": ["TFV.Properties.Estim"],
     "C19": ["TFV.Properties.Metrics"],
     "C20": ["TFV.Properties.Bench"],
+}
+
+# kernels of /repo that are TRANSLATED into Lean on every run (harness/extract/py2lean.py) and proved equal to the
+# hand-written model by the theorems C*_src_* of TFV/Properties/Src/*.lean
+SRC_KERNELS = {
+    "C07": ["bounds_control"],
+    "C09": ["find_end_subtree_from_i", "find_id_args_from_i", "find_first_difference_between_two"],
+    "C11": ["binary_search_interval", "check_for_value", "argsort_k"],
+    "C16": ["get_n_jobs"],
 }
 
 
@@ -230,6 +239,18 @@ class Check:
     def lean(self, prefix: str | None = None):
         """S1 + S2 for this property: build, forbidden-token grep, axiom audit"""
         prefix = prefix or self.prop
+        if SRC_KERNELS.get(self.prop):
+            # S0: re-translate the kernels this property's source-tie theorems are about from the CURRENT tree
+            sys.path.insert(0, str(VERIF / "harness" / "extract"))
+            import py2lean
+            with LeanLock():
+                try:
+                    st = py2lean.main(repo=str(REPO), out=str(LEAN / "TFV/Generated/Src"), only=SRC_KERNELS[self.prop])
+                except Exception as e:  # noqa
+                    st = {k: "translator error: " + repr(e)[:200] for k in SRC_KERNELS[self.prop]}
+            for k in SRC_KERNELS[self.prop]:
+                self.obligation(f"translate {k} from the current source (py2lean)", st.get(k) == "ok", st.get(k, "missing"))
+            self.trusted.append("source translator harness/extract/py2lean.py (Python AST subset -> state-passing Lean over TFV.Model.Imp) for: " + ", ".join(SRC_KERNELS[self.prop]))
         mods = [m for m in LEAN_MODULES[self.prop] if module_path(m).exists()]
         if not mods:
             self.obligation("lean-modules-present", False, f"no property module for {self.prop}")
